@@ -897,3 +897,16 @@ func (p *Prog) CheckElementSwitches(o *Obl, writerID, readerID string, writerOnl
 		}
 	}
 }
+
+// TlvNumberOf exposes tlvNumberOf.
+func TlvNumberOf(t types.Type) string { return tlvNumberOf(t) }
+
+// StructFieldTypes returns field name -> type for the struct behind T with
+// embedded structs expanded.
+func StructFieldTypes(T *types.Named) map[string]types.Type {
+	out := map[string]types.Type{}
+	for v, name := range structFields(T) {
+		out[name] = v.Type()
+	}
+	return out
+}
